@@ -650,7 +650,29 @@ def run(chk, repo, tier):
             detm = detm or 'undecided: neither a shifted mesh nor grid - shift found'
         chk.ob('C20-i', 'D-flow', key, 'rows move with shift[0], columns with shift[1]', okm,
                detm or f'{nm} mesh call(s)', sf.loc())
-    chk.not_decided += ['translation/half-turn symmetry of drawn shapes, equal areas, non-overlap, border clearance']
+    # half-turn symmetry about the origin sample: the value of a circle / rectangle at grid point (r, c) is its value at
+    # (-r, -c) - the drawing depends on the centred grid only through expressions that are even under that exchange (a test
+    # that is closed on one side and open on the other is not)
+    for key in ('shape.circle', 'shape.rectangle'):
+        for aa, label in ((TRUE, 'antialias=True'), (FALSE, 'antialias=False')):
+            sf, sp, _ = analyse(repo, key, config={'antialias': aa, 'shift': Tup([C(0), C(0)])})
+            verdict, dets, nn = True, '', 0
+            for p in returns(sp):
+                meshes = p.calls('helper.mesh')
+                if len(meshes) != 1 or p.state.loops:
+                    verdict = None if verdict is not False else verdict
+                    dets = dets or 'undecided: not a closed expression of one centred grid'
+                    continue
+                res = meshes[0].data.get('result')
+                comps = [nf.index(res, C(0)), nf.index(res, C(1))]
+                flipped = nf.subst_value(p.ret, {comps[0].single_atom(): -comps[0], comps[1].single_atom(): -comps[1]})
+                nn += 1
+                if flipped != p.ret:
+                    verdict = False
+                    dets = f'value at (-r, -c) is {fmt(flipped)[:140]}, at (r, c) {fmt(p.ret)[:140]}'
+            chk.ob('C20-f', 'N-symmetry', key, f'unchanged by a half-turn about the origin sample [{label}]',
+                   (verdict and nn > 0) if verdict is not None else None, dets or f'{nn} path(s)', sf.loc())
+    chk.not_decided += ['translation symmetry of drawn shapes numerically, equal areas']
     pad_rules(chk, repo)
     helper_rules(chk, repo)
     reduce_rules(chk, repo)
